@@ -1,7 +1,7 @@
 (* C16 — line-ending style does not matter.
    Only statements, each closed by a lemma from Proofs/, with Print Assumptions. *)
 From Coq Require Import ZArith List Bool.
-From Verif Require Import PyStr Normalize NormalizeGen NormalizeProofs.
+From Verif Require Import PyStr Normalize NormalizeGen NormalizeProofs Inline Block Doc Entry.
 Import ListNotations.
 Open Scope Z_scope.
 
@@ -58,9 +58,29 @@ Proof.
   intros _. destruct ls as [|l2 ls2]; cbn; [exact I|]. destruct l2; exact I.
 Qed.
 
+(* instance: the executable model of the whole core conversion (block pass, reference table, inline pass; Model/Doc.v,
+   tied to create_markdown(renderer=None) by the AST correspondence run) is of the form G o parse_src, so the AST it
+   produces does not depend on the line-ending style *)
+Definition core_G (hw : bool) (t : str) : res (list node) :=
+  match block_cfg, inline_cfg hw [] with
+  | Some CB, Some d => doc_parse CB (fun rf => inline_cfg_or hw rf d) (fun x => x) t
+  | _, _ => Exn
+  end.
+
+Lemma core_doc_parse_is_G : forall hw s, core_doc_parse hw s = core_G hw (parse_src s).
+Proof. intros hw s. unfold core_doc_parse, core_G, parse_src. destruct block_cfg; [|reflexivity]. destruct (inline_cfg hw []); reflexivity. Qed.
+
+Theorem C16_core_ast_ending_invariant : forall hw d,
+  lines_ok d -> unambiguous d -> d <> [] -> core_doc_parse hw (show d) = core_doc_parse hw (show (to_LF d)).
+Proof.
+  intros hw d H1 H2 H3. rewrite !core_doc_parse_is_G.
+  exact (C16_ending_invariance (res (list node)) (core_G hw) d H1 H2 H3).
+Qed.
+
 Print Assumptions C16_ending_invariance.
 Print Assumptions C16_lf_form.
 Print Assumptions C16_missing_final_newline.
 Print Assumptions C16_none_is_empty.
 Print Assumptions C16_uniform_unambiguous.
 Print Assumptions C16_uniform_CR_unambiguous.
+Print Assumptions C16_core_ast_ending_invariant.
